@@ -147,8 +147,23 @@ func solve(o *Obligation, cfg *SolverCfg) {
 		// (first a short plain race: most obligations that survive stage 1 end here, and the
 		// extra variants cost processes)
 		short := 6 * time.Second
-		if cfg.Timeout > short {
+		large := len(text) > 150000
+		if cfg.Timeout > short && !large {
 			res, out, solver, used = portfolio(text, file, capTo(short, deadline), false)
+		}
+		if res != "sat" && res != "unsat" && large && o.Expect == "unsat" {
+			// a large conjunctive goal: the conjuncts one by one (each with its own sliced
+			// variants) are usually quicker than the whole
+			if _, parts := splitGoal(o.Goal); len(parts) >= 2 {
+				if r3, out3, name3, ok := solveSplit(o, cfg, file, start.Add(3*cfg.Timeout)); ok {
+					res, out, solver = r3, out3, name3
+					if res == "sat" {
+						if b, err := os.ReadFile(file); err == nil {
+							text = string(b)
+						}
+					}
+				}
+			}
 		}
 		if res != "sat" && res != "unsat" {
 			res, out, solver, used = portfolio(text, file, capTo(cfg.Timeout, deadline), o.Expect == "unsat")
